@@ -65,6 +65,75 @@ def plain_release(pid, tier, seed):
     return res
 
 
+def env_literals(pid, tier, seed):
+    """Ambient process state: string literals of the crate's current sources that look like environment variable names
+    (UPPER_CASE_WITH_UNDERSCORES, not an abi constant) are set in the workers' environment, and the property's workload
+    (every 8th case) runs again. Nothing to do on a tree that has none."""
+    names = []
+    srcdir = os.path.join(REPO, "src")
+    abi = open(os.path.join(srcdir, "abi.rs"), errors="replace").read() if os.path.exists(os.path.join(srcdir, "abi.rs")) else ""
+    for fn in sorted(os.listdir(srcdir)):
+        if not fn.endswith(".rs") or fn in ("abi.rs", "to_str.rs"):
+            continue
+        code = open(os.path.join(srcdir, fn), errors="replace").read().split("#[cfg(test)]")[0]
+        for lit in re.findall(r'"([A-Z][A-Z0-9]*_[A-Z0-9_]+)"', code):
+            if lit not in names and f"pub const {lit}:" not in abi:
+                names.append(lit)
+    res = {"violations": [], "inconclusive": [], "counters": {}, "samples": [], "evaluations": 0, "digests": set(), "maxes": {},
+           "coverage": {"environment_variable_like_literals": names}}
+    if not names:
+        return res
+    binp = build_main()
+    if binp is None:
+        return {"inconclusive": ["main build failed"]}
+    old = {n: os.environ.get(n) for n in names}
+    try:
+        for n in names:
+            os.environ[n] = "1"
+        reports, problems = run_shards(binp, pid, tier, seed, tag="env", extra_args=["--cases-div", "8"])
+    finally:
+        for n, v in old.items():
+            if v is None:
+                os.environ.pop(n, None)
+            else:
+                os.environ[n] = v
+    m = merge_reports(reports)
+    for v in m["violations"]:
+        v = dict(v)
+        v["phase"] = "env_literals"
+        v["detail"] = f"[with {', '.join(n + '=1' for n in names)} in the environment] " + v.get("detail", "")
+        v["sig"] = "env:" + v["sig"]
+        res["violations"].append(v)
+    res["inconclusive"].extend(m["inconclusive"] + [p["why"] for p in problems])
+    res["evaluations"] += m["evaluations"]
+    res["digests"] |= m["digests"]
+    res["coverage"]["run"] = f"every 8th case of the {tier} tier with the variables set"
+    return res
+
+
+def lifetime_probe(pid, tier, seed):
+    """Type-level half of "borrows from the caller's buffer" (C03): /verif/probe returns, from functions that own the
+    parser handle, what each accessor hands out typed with the lifetime of the input buffer. It type-checks only if the
+    accessors' return types are tied to the buffer. Decided by the compiler; the pointer-range oracle covers the runtime half."""
+    res = {"violations": [], "inconclusive": [], "counters": {}, "samples": [], "evaluations": 0, "digests": set(), "maxes": {}, "coverage": {}}
+    probe = os.path.join(VERIF, "probe")
+    rc, err = _cargo(["cargo", "check", "--offline", "--lib", "--target-dir", os.path.join(TARGET, "probe")], cwd=probe)
+    nfun = len(re.findall(r"^pub fn ", open(os.path.join(probe, "src", "lib.rs")).read(), flags=re.M))
+    res["coverage"] = {"probe_functions": nfun, "check": "ok" if rc == 0 else "FAILED"}
+    res["evaluations"] = nfun
+    res["counters"]["lifetime-probe:accessors-type-checked"] = nfun if rc == 0 else 0
+    res["samples"] = [f"[lifetime_probe] {nfun} accessors returned with the input buffer's lifetime from a function that owns the handle: {'type-checks' if rc == 0 else 'does not type-check'}"]
+    if rc != 0:
+        if re.search(r"E0515|E0597|E0521|E0716|lifetime may not live long enough|returns a value referencing data owned by the current function|does not live long enough", err):
+            first = re.search(r"error[^\n]*\n[^\n]*-->[^\n]*", err)
+            res["violations"].append({"sig": "lifetime:returned-data-tied-to-the-handle", "phase": "lifetime_probe",
+                                      "detail": "a value handed out by the slice parser cannot outlive the parser handle although the buffer does (its type borrows from `&self`, not from the caller's buffer): " + (first.group(0) if first else err[-600:]).replace("\n", " "),
+                                      "stratum": "lifetime-probe", "case": 0, "input_hex": ""})
+        else:
+            res["inconclusive"].append("the lifetime probe does not compile for a reason that is not a lifetime error: " + err[-500:])
+    return res
+
+
 def target_feature_builds(pid, tier, seed):
     """Code behind cfg(target_feature = "..") exists only in builds that enable the feature. For every CPU feature the
     crate's current sources name and this host's CPU has, the property's workload (every 8th case) runs against a
